@@ -309,8 +309,17 @@ struct KbPlan {
   sig: u8,                // 0 valid, 1 stranger, 2 other method's key, 3 claims altered after signing
   sd_hash: u8,            // 0 correct, 1 over reversed disclosure order, 2 over the jwt only, 3 garbage, 4 without trailing '~', 5 over another JWT (replay),
                           // 6 empty string, 7 a proper prefix of the right digest, 8 the right digest followed by extra characters
-  nonce_opt: u8,          // 0 None, 1 equal, 2 different
+  nonce_claim: u8,        // the nonce the holder signed: 0 "kb-nonce-1", 1 "" (empty), 2 " " (one space)
+  aud_claim: u8,          // the aud the holder signed: 0 "did:example:verifier", 1 "", 2 " "
+  nonce_opt: u8,          // the expectation in the options (see `expectation`): 0 None, 1 equal to the signed value, 2 another value,
+                          // 3 Some("") (present but empty: still an expectation), 4 signed value + trailing space, 5 signed value in upper case,
+                          // 6 signed value without its last character, 7 Some(" ")
   aud_opt: u8,
+  alter: u8,              // the presented disclosure list altered AFTER the holder computed sd_hash and signed (see `alter_presented`):
+                          // 0 untouched, 1/2/3 an empty string spliced in at the front / somewhere / the end, 4 two empty strings,
+                          // 5 a whitespace-only element, 6 one disclosure dropped, 7 a fresh disclosure appended, 8 one duplicated,
+                          // 9 two neighbours swapped, 10 '=' padding appended to one element
+  via_wire: bool,         // the presentation travels as text `<jwt>~<d1>~..~<dn>~<kb>` written by the harness and is parsed back
   window: u8,             // 0 no earliest/explicit latest far, 1 [E,L] explicit, 2 latest unset (wall clock)
   iat_ms: bool,           // the instant that would be inside the window, written in MILLIseconds (as seconds it is unrepresentably far in the future)
   iat_pos: u8,            // window 1: 0 E-1, 1 E, 2 inside, 3 L, 4 L+1 ; window 2: 0 a day ago, 1 a day ahead, 2 five seconds ahead ; window 0: any
@@ -330,8 +339,12 @@ impl KbPlan {
       scope: 0,
       sig: 0,
       sd_hash: 0,
+      nonce_claim: *rng.pick(&[0u8, 0, 0, 1, 2]),
+      aud_claim: *rng.pick(&[0u8, 0, 0, 1, 2]),
       nonce_opt: rng.below(2) as u8,
       aud_opt: rng.below(2) as u8,
+      alter: 0,
+      via_wire: rng.chance(1, 4),
       window,
       iat_ms: false,
       iat_pos: match window {
@@ -344,7 +357,9 @@ impl KbPlan {
   fn in_scope(m: u8, scope: u8) -> bool {
     matches!((m, scope), (_, 0) | (0, 1) | (0, 2) | (1, 3))
   }
-  fn falsified(&self) -> Vec<&'static str> {
+  /// `sd_hash_ok`: the signed sd_hash equals the harness's own digest over the text that is actually presented.
+  /// `altered`: the presented text differs from the one the holder signed over.
+  fn falsified(&self, sd_hash_ok: bool, altered: bool) -> Vec<&'static str> {
     let mut f = Vec::new();
     if !self.present {
       f.push("kb-jwt-present");
@@ -379,17 +394,15 @@ impl KbPlan {
         }
       }
     }
-    let order_matters = self.n_disclosures >= 2;
-    match self.sd_hash {
-      1 if order_matters => f.push("sd_hash"),
-      2 if self.n_disclosures >= 1 => f.push("sd_hash"),
-      3..=8 => f.push("sd_hash"),
-      _ => {}
+    if !sd_hash_ok {
+      // one name for a wrong value signed by the holder, another for a right value whose presentation was altered afterwards
+      f.push(if altered && self.sd_hash == 0 { "sd_hash-over-altered-presentation" } else { "sd_hash" });
     }
-    if self.nonce_opt == 2 {
+    // an expectation that is present (whatever its text, the empty string included) must equal the signed value exactly
+    if matches!(expectation(self.nonce_opt, nonce_claim_text(self.nonce_claim), "kb-nonce-2"), Some(x) if x != nonce_claim_text(self.nonce_claim)) {
       f.push("nonce");
     }
-    if self.aud_opt == 2 {
+    if matches!(expectation(self.aud_opt, aud_claim_text(self.aud_claim), "did:example:another-verifier"), Some(x) if x != aud_claim_text(self.aud_claim)) {
       f.push("aud");
     }
     match (self.window, self.iat_pos) {
@@ -402,7 +415,91 @@ impl KbPlan {
   }
 }
 
-fn build_kb(rng: &mut Rng, p: &KbPlan, issuer_jwt: &str) -> (SdJwt, KeyBindingJWTValidationOptions, Value) {
+fn nonce_claim_text(sel: u8) -> &'static str {
+  match sel {
+    1 => "",
+    2 => " ",
+    _ => "kb-nonce-1",
+  }
+}
+fn aud_claim_text(sel: u8) -> &'static str {
+  match sel {
+    1 => "",
+    2 => " ",
+    _ => "did:example:verifier",
+  }
+}
+/// The expected value placed in the options, as a function of the plan only.
+fn expectation(sel: u8, signed: &str, other: &str) -> Option<String> {
+  match sel {
+    0 => None,
+    1 => Some(signed.to_string()),
+    2 => Some(other.to_string()),
+    3 => Some(String::new()),
+    4 => Some(format!("{} ", signed)),
+    5 => Some(signed.to_uppercase()),
+    6 => {
+      let mut t = signed.to_string();
+      t.pop();
+      Some(t)
+    }
+    _ => Some(" ".to_string()),
+  }
+}
+/// The text the sd_hash is taken over: `<jwt>~<d1>~...~<dn>~`.
+fn presented_text(issuer_jwt: &str, ds: &[String]) -> String {
+  let mut s = String::from(issuer_jwt);
+  s.push('~');
+  s.push_str(&ds.join("~"));
+  s.push('~');
+  s
+}
+/// The list handed to the verifier, altered after the holder signed.
+fn alter_presented(rng: &mut Rng, how: u8, signed: &[String]) -> Vec<String> {
+  let mut v: Vec<String> = signed.to_vec();
+  let n = v.len();
+  match how {
+    1 => v.insert(0, String::new()),
+    2 => v.insert(rng.usize(n + 1), String::new()),
+    3 => v.push(String::new()),
+    4 => {
+      v.insert(rng.usize(n + 1), String::new());
+      v.insert(rng.usize(n + 2), String::new());
+    }
+    5 => v.insert(rng.usize(n + 1), rng.pick(&[" ", "\t", "\n", "  "]).to_string()),
+    6 if n > 0 => {
+      v.remove(rng.usize(n));
+    }
+    7 => v.insert(rng.usize(n + 1), disclosure(rng, "z", &json!(true))),
+    8 if n > 0 => {
+      let i = rng.usize(n);
+      let d = v[i].clone();
+      v.insert(rng.usize(n + 1), d);
+    }
+    9 if n > 1 => {
+      let i = rng.usize(n - 1);
+      v.swap(i, i + 1);
+    }
+    10 if n > 0 => {
+      let i = rng.usize(n);
+      v[i].push('=');
+    }
+    _ => {}
+  }
+  v
+}
+
+struct BuiltKb {
+  sd: SdJwt,
+  options: KeyBindingJWTValidationOptions,
+  claims: Value,
+  sd_hash_ok: bool,      // signed sd_hash == own digest over the presented text
+  altered: bool,         // presented text differs from the signed-over text
+  list_only_differs: bool, // the list differs although the text does not ([] versus [""]): either verdict is within the statement
+  wire: bool,
+}
+
+fn build_kb(rng: &mut Rng, p: &KbPlan, issuer_jwt: &str) -> BuiltKb {
   let names = ["a", "b", "c"];
   let disclosures: Vec<String> = (0..p.n_disclosures).map(|i| disclosure(rng, names[i], &json!(i))).collect();
   let hash_input = |ds: &[String], trailing: bool| {
@@ -460,7 +557,7 @@ fn build_kb(rng: &mut Rng, p: &KbPlan, issuer_jwt: &str) -> (SdJwt, KeyBindingJW
     _ => 1_500_000_000,
   };
   let iat = if p.iat_ms { iat.saturating_mul(1000) + rng.below(1000) as i64 } else { iat };
-  let claims = json!({"iat": iat, "aud": "did:example:verifier", "nonce": "kb-nonce-1", "sd_hash": sd_hash, "extra": {"x": 1}});
+  let claims = json!({"iat": iat, "aud": aud_claim_text(p.aud_claim), "nonce": nonce_claim_text(p.nonce_claim), "sd_hash": sd_hash, "extra": {"x": 1}});
   let mut h = Map::new();
   h.insert("alg".into(), json!("EdDSA"));
   match p.typ {
@@ -527,15 +624,11 @@ fn build_kb(rng: &mut Rng, p: &KbPlan, issuer_jwt: &str) -> (SdJwt, KeyBindingJW
     _ => {}
   }
   let mut o = KeyBindingJWTValidationOptions::new().jws_verifier_options(vo);
-  match p.nonce_opt {
-    1 => o = o.nonce("kb-nonce-1"),
-    2 => o = o.nonce("kb-nonce-2"),
-    _ => {}
+  if let Some(x) = expectation(p.nonce_opt, nonce_claim_text(p.nonce_claim), "kb-nonce-2") {
+    o = o.nonce(x);
   }
-  match p.aud_opt {
-    1 => o = o.aud("did:example:verifier"),
-    2 => o = o.aud("did:example:another-verifier"),
-    _ => {}
+  if let Some(x) = expectation(p.aud_opt, aud_claim_text(p.aud_claim), "did:example:another-verifier") {
+    o = o.aud(x);
   }
   match p.window {
     1 => o = o.earliest_issuance_date(Timestamp::from_unix(E).unwrap()).latest_issuance_date(Timestamp::from_unix(L).unwrap()),
@@ -562,9 +655,29 @@ fn build_kb(rng: &mut Rng, p: &KbPlan, issuer_jwt: &str) -> (SdJwt, KeyBindingJW
       o = parsed;
     }
   }
-  let sd = SdJwt::new(issuer_jwt.to_string(), disclosures, if p.present { Some(kb) } else { None });
-  let claims_out = claims.clone();
-  (sd, o, claims_out)
+  // what the verifier is handed: the signed-over list, or that list altered afterwards
+  let presented = alter_presented(rng, p.alter, &disclosures);
+  let signed_text = presented_text(issuer_jwt, &disclosures);
+  let shown_text = presented_text(issuer_jwt, &presented);
+  let sd_hash_ok = sd_hash == digest_of(&shown_text);
+  let altered = shown_text != signed_text;
+  let list_only_differs = !altered && presented != disclosures;
+  let kb_opt = if p.present { Some(kb) } else { None };
+  let mut sd = SdJwt::new(issuer_jwt.to_string(), presented, kb_opt.clone());
+  let mut wire = false;
+  if p.via_wire {
+    // the same presentation as one string written by the harness, split again by the parser
+    let text = format!("{}{}", shown_text, kb_opt.as_deref().unwrap_or(""));
+    if let Ok(Ok(parsed)) = catch(|| SdJwt::parse(&text)) {
+      if parsed.jwt == issuer_jwt && parsed.key_binding_jwt == kb_opt {
+        sd = parsed;
+        wire = true;
+      }
+    }
+  }
+  // (the text `<jwt>~~<kb>` of a presentation without disclosures comes back from the parser as one empty element)
+  let list_only_differs = list_only_differs || (!altered && sd.disclosures != disclosures);
+  BuiltKb { sd, options: o, claims, sd_hash_ok, altered, list_only_differs, wire }
 }
 
 struct Cx {
@@ -673,11 +786,20 @@ impl Cx {
 
   fn kb_scenario(&mut self, rng: &mut Rng, p: &KbPlan) {
     self.rep.eval();
-    let (sd, o, claims) = build_kb(rng, p, &self.issuer_jwt.clone());
-    let falsified = p.falsified();
+    let b = build_kb(rng, p, &self.issuer_jwt.clone());
+    let falsified = p.falsified(b.sd_hash_ok, b.altered);
+    let either = b.list_only_differs;
+    if b.wire {
+      self.rep.inc("kb_via_wire_text");
+    }
+    if p.alter != 0 {
+      self.rep.inc(if b.altered { "kb_presentation_altered_after_signing" } else { "kb_alteration_without_effect_on_text" });
+    }
+    let (sd, o, claims) = (b.sd, b.options, b.claims);
     let case = json!({"plan": format!("{:?}", p), "kb_jwt": sd.key_binding_jwt, "disclosures": sd.disclosures, "falsified": falsified,
       "options": serde_json::to_value(&o).unwrap_or(Value::Null)});
-    self.rep.distinct("nontrivial", &format!("kb|{}|typ{}|m{}|kid{}|ovr{}|sc{}|w{}:{}|n{}", falsified.join("+"), p.typ, p.method, p.kid, p.method_id_override, p.scope, p.window, p.iat_pos, p.n_disclosures));
+    self.rep.distinct("nontrivial", &format!("kb|{}|typ{}|m{}|kid{}|ovr{}|sc{}|w{}:{}|n{}|alt{}|nc{}:{}|ac{}:{}", falsified.join("+"), p.typ, p.method, p.kid, p.method_id_override, p.scope, p.window, p.iat_pos, p.n_disclosures,
+      p.alter, p.nonce_claim, p.nonce_opt, p.aud_claim, p.aud_opt));
     self.rep.distinct("condition_vectors", &format!("kb|{}", falsified.join("+")));
     let validator = SdJwtCredentialValidator::with_signature_verifier(EdDSAJwsVerifier::default(), SdObjectDecoder::new_with_sha256());
     let r = catch(|| validator.validate_key_binding_jwt(&sd, &self.holder, &o));
@@ -706,7 +828,10 @@ impl Cx {
             case.clone(),
           );
         }
-        if c.iat != claims["iat"].as_i64().unwrap() || c.aud != "did:example:verifier" || c.nonce != "kb-nonce-1" || Some(c.sd_hash.as_str()) != claims["sd_hash"].as_str() {
+        if o.nonce.as_deref() == Some("") || o.aud.as_deref() == Some("") {
+          self.rep.inc("kb_accepted_with_empty_expectation_met");
+        }
+        if c.iat != claims["iat"].as_i64().unwrap() || c.aud != aud_claim_text(p.aud_claim) || c.nonce != nonce_claim_text(p.nonce_claim) || Some(c.sd_hash.as_str()) != claims["sd_hash"].as_str() {
           self.rep.violation("kb-claims-returned-differ", "KB-JWT claims returned differ from those signed", case.clone());
         }
       }
@@ -715,7 +840,9 @@ impl Cx {
         self.rep.inc("kb_rejected");
         // completeness is demanded only for the typ spelling the library itself documents (its constant); a spec-conform
         // "kb+jwt" that is rejected is counted
-        if falsified.is_empty() {
+        if falsified.is_empty() && either {
+          self.rep.inc("kb_rejected_within_latitude");
+        } else if falsified.is_empty() {
           if p.typ == 0 {
             self.rep.violation("kb-jwt-rejected-although-all-hold", "KB-JWT rejected although every condition holds", case);
           } else {
@@ -724,6 +851,9 @@ impl Cx {
         } else {
           for f in &falsified {
             self.rep.inc(&format!("kb_rejected:{}", f));
+          }
+          if (falsified.contains(&"nonce") && o.nonce.as_deref() == Some("")) || (falsified.contains(&"aud") && o.aud.as_deref() == Some("")) {
+            self.rep.inc("kb_rejected:empty-expectation-not-met");
           }
         }
       }
@@ -775,8 +905,30 @@ fn mutate_kb(rng: &mut Rng, p: &mut KbPlan, w: u64) {
         }
       }
     }
-    7 => p.nonce_opt = 2,
-    8 => p.aud_opt = 2,
+    7 => {
+      p.nonce_opt = 2 + rng.below(6) as u8;
+      if p.nonce_opt == 3 {
+        p.nonce_claim = *rng.pick(&[0u8, 0, 2]); // an empty expectation against a non-empty signed value
+      }
+    }
+    8 => {
+      p.aud_opt = 2 + rng.below(6) as u8;
+      if p.aud_opt == 3 {
+        p.aud_claim = *rng.pick(&[0u8, 0, 2]);
+      }
+    }
+    15 | 16 => {
+      // the disclosure list is altered after the holder signed
+      p.alter = 1 + rng.below(10) as u8;
+      let need = match p.alter {
+        9 => 2,
+        1..=5 | 7 => usize::from(rng.chance(3, 4)),
+        _ => 1,
+      };
+      if p.n_disclosures < need {
+        p.n_disclosures = need + rng.usize(4 - need);
+      }
+    }
     9 => {
       p.window = 1;
       p.iat_pos = *rng.pick(&[0u8, 4]);
@@ -848,11 +1000,11 @@ fn main() {
     match i % 6 {
       0 => {}
       1 | 2 | 3 => {
-        let w = rng.below(15);
+        let w = rng.below(17);
         mutate_kb(&mut rng, &mut k, w);
       }
       _ => {
-        let (a, b) = (rng.below(15), rng.below(15));
+        let (a, b) = (rng.below(17), rng.below(17));
         mutate_kb(&mut rng, &mut k, a);
         mutate_kb(&mut rng, &mut k, b);
       }
